@@ -17,8 +17,10 @@ property is anchored in (extract / inline a helper, loop <-> iterator chain, `ma
 closures, code motion). Each agent compared the tool's outputs byte for byte before and after on hundreds to thousands of runs (shipped examples
 under all flag combinations plus hand-written and random inputs); I re-ran the pinned tests. Three more probes (`X00-1` .. `X00-3`) are mine: they
 only *rename* locals and parameters across the files the rules read (13 rules looked locals up by name; they now find them by role - the
-argument of a call, the field of a struct literal, the parameter position). The %d patches are kept in `probes/<id>/` and are negative
-controls (`R-<id>`) of the self-test.
+argument of a call, the field of a struct literal, the parameter position). In a **second round** twenty fresh sub-agents wrote two more
+refactorings each (`Cxx-4`, `Cxx-5`: 40 patches, on average larger than the first sixty - several restructure a whole function or move a
+table into its own `Display` impl), and four more probes of mine (`X00-4` .. `X00-7`) rename and move *functions* and fields the rules are
+anchored on. The %d patches are kept in `probes/<id>/` and are negative controls (`R-<id>`) of the self-test.
 
 **First runs: 28 of the first 30 refactorings, 12 of the next 15 (C10, C11, C14, C17, C20) and 12 of the last 15 (C12, C15, C16, C18, C19) made at
 least one check fail** (almost all as template mismatches or fail-closed analysis gaps). That
@@ -66,6 +68,28 @@ I then removed the causes that were generic rather than specific to one probe:
   block tails, match arms, `if` branches and helper returns.
 * **Parenthesisation decided from path conditions.** The writes of an operand are found by their argument, and the (parent, child) row
   decides which write is reached; `a || b < c`, a three-way `cmp` match, locals and an extracted `fmt_operand` helper are all the same to it.
+
+**Second round, first run: 35 of the 40 new refactorings made at least one check fail** - the generalisations above had been fitted to
+the first sixty. What was removed this time (again only causes that are generic, each verified against all seeded changes and mutants):
+
+* **Collections in one comprehension form** (`rules/comp.py`). A loop with `push` / `insert` / `extend`, an iterator chain (`map`, `filter`,
+  `filter_map`, `flat_map`, `chain`, `enumerate`, `keys`, `values`, `once`, `Option::into_iter`), the entry-API idioms, an extracted helper
+  passed as a function value, `collect::<Option<_>>()?` (read as a collection of `entry?`) and a `match` / `if` between collections all
+  become `[(sources, [(facts, element)])]`. The references of C01 (chooser), C02 (routing, assembled task), C04 (completion, split,
+  components), C08 (fresh variables, integer variables, body / program templates), C09 (sanitiser) and C11 / C12 / C13 are written in that
+  form, and decision trees are compared as *functions of their atomic conditions* (`leaves.same_decision`), not as trees.
+* **Rules restated on the evaluated term rather than on the statements that build it.** C03's routing and C02's control translation are
+  decided on what the function returns for each concrete input shape; C05's prefixing, C07's comparison evaluation, C10's status table
+  and C20's role table the same way. Negated arms, `let .. else`, `matches!` with a guard, a wildcard arm after explicit ones, early
+  `continue` / `return` are all turned into facts of the path.
+* **Renamed and moved functions** are read under the name the rules know them by (`rules/known_signatures.json`: a function of the
+  reference list that no longer exists and exactly one new function with its signature, same module or same name).
+* **Printers as text** (`printers.flat`). The writes of a `Display` impl are flattened to literal pieces and holes and the rules ask what is
+  written *when given facts hold* (this sort, first / later element): one write or several, a separator kept in a local, named
+  placeholders, a table printed through its own `Format<T>` impl or a match in place, `repeat_n(..).join(..)` or `intersperse(..).collect()`
+  give the same text. C06's binder rules and C09's declaration rules are stated on it.
+* **Spelling that cannot matter is erased before comparing**: closure parameter names (numbered by position), a two-way choice on a negated
+  condition, named / positional / literal format arguments, struct-pattern bindings vs field access.
 
 After these changes **%d of the %d probes are silent on all 20 checks**; the other %d still fail at least one check although the property
 holds. They are listed below as *known fail-closed cases*: restructurings that need algebraic knowledge the extractors do not have
